@@ -1,6 +1,6 @@
 """Implementation-side observations of the licence domain (C19).  Public API only: canonicalize_license_expression and the
 two data tables packaging.licenses._spdx.LICENSES / EXCEPTIONS (the anchors of the property)."""
-import itertools, random, re, sys
+import itertools, os, random, re, sys
 from packaging.licenses import canonicalize_license_expression as cle, InvalidLicenseExpression
 from packaging.licenses._spdx import LICENSES, EXCEPTIONS
 
@@ -14,83 +14,15 @@ def run(s):
         return None
 
 
-# ----------------------------------------------------------------------------- harness-side reading of the property (spec prototype)
-KELVIN = "K"
-WS = [9, 10, 11, 12, 13, 28, 29, 30, 31, 32, 133, 160, 5760] + list(range(8192, 8203)) + [8232, 8233, 8239, 8287, 12288]
-WS_SET = set(map(chr, WS))
-REF_OK = set("ABCDEFGHIJKLMNOPQRSTUVWXYZabcdefghijklmnopqrstuvwxyz0123456789.-")
-
-
-def alower(t):          # ASCII-only case folding: what "in any letter case" means in the spec
-    return "".join(chr(ord(c) + 32) if "A" <= c <= "Z" else c for c in t)
-
-
-def tokenize(s):
-    out, cur = [], ""
-    for c in s:
-        if c in WS_SET or c in "()":
-            if cur: out.append(cur); cur = ""
-            if c in "()": out.append(c)
-        else:
-            cur += c
-    if cur: out.append(cur)
-    return out
-
-
-ID_BY_FOLD = None
-EXC_BY_FOLD = None
-
-
-def tables():
-    global ID_BY_FOLD, EXC_BY_FOLD
-    if ID_BY_FOLD is None:
-        ID_BY_FOLD = {alower(v["id"]): v["id"] for v in LICENSES.values()}
-        EXC_BY_FOLD = {alower(v["id"]): v["id"] for v in EXCEPTIONS.values()}
-    return ID_BY_FOLD, EXC_BY_FOLD
+# ----------------------------------------------------------------------------- harness-side reading of the property (shared: harness/gen_lic.py)
+sys.path.insert(0, os.path.dirname(os.path.dirname(os.path.abspath(__file__))))
+from gen_lic import KELVIN, WS, alower, tokenize, fold_tables
+import gen_lic
+IDS, EXCS = fold_tables([v["id"] for v in LICENSES.values()], [v["id"] for v in EXCEPTIONS.values()])
 
 
 def spec(s, plus_on_ref):
-    """Canonical form per the property text, or None.  plus_on_ref: whether 'LicenseRef-x+' is read as well-formed (the text is
-    silent; the check accepts either reading)."""
-    ids, excs = tables()
-    toks = tokenize(s)
-    out, mode, depth, maxdepth = [], "operand", 0, 0      # modes: operand | license | with | other
-    for t in toks:
-        f = alower(t)
-        if f == "(":
-            if mode != "operand": return None
-            depth += 1; maxdepth = max(depth, maxdepth); out.append("(")
-        elif f == ")":
-            if mode not in ("license", "other") or depth == 0: return None
-            depth -= 1; out.append(")"); mode = "other"
-        elif f in ("and", "or"):
-            if mode not in ("license", "other"): return None
-            out.append(f.upper()); mode = "operand"
-        elif f == "with":
-            if mode != "license": return None
-            out.append("WITH"); mode = "with"
-        elif mode == "with":
-            if f not in excs: return None
-            out.append(excs[f]); mode = "other"
-        elif mode == "operand":
-            plus = "+" if t.endswith("+") else ""
-            core = t[:-1] if plus else t
-            if alower(core).startswith("licenseref-"):
-                if not all(c in REF_OK for c in core): return None
-                if plus and not plus_on_ref: return None
-                out.append("LicenseRef-" + core[11:] + plus)
-            else:
-                if alower(core) not in ids: return None
-                out.append(ids[alower(core)] + plus)
-            mode = "license"
-        else:
-            return None
-    if mode not in ("license", "other") or depth != 0: return None
-    text = ""
-    for i, t in enumerate(out):
-        if i and not (out[i - 1] == "(" or t == ")"): text += " "
-        text += t
-    return text, maxdepth
+    return gen_lic.spec(s, plus_on_ref, IDS, EXCS)
 
 
 def in_domain(s):
